@@ -1,14 +1,20 @@
 """C25 — shortest-path zones compute minimal routes.
 Theorems: lean/SgVerif/C25/Props.lean.  Tie: the Lean models of FloydZone (add_route, do_seal, get_local_route),
-DijkstraZone (new_edge, do_seal, get_local_route with its 64-bit costs and front insertion) and FullZone are run on the
+DijkstraZone (new_edge, do_seal, get_local_route with its 64-bit costs, its guard against unreachable nodes and its front
+insertion) and FullZone are run on the
 same generated graphs as the library (Floyd, Dijkstra, DijkstraCache zones built from one route list, + a Full zone);
 monitor: chain-of-declared-routes validity and minimal link count (Bellman-Ford spec), hence equal counts across the three."""
 import json
 from vlib.core import SplitMix
 
-KEY_D16 = "dijkstra-multilink-hop-reversed"
-KEY_D15 = "dijkstra-unreachable-node-wraps"
+# The defects `dijkstra-multilink-hop-reversed` (D16) and `dijkstra-unreachable-node-wraps` (D15) are fixed (fix_series/):
+# the model follows the fixed code, a monitor failure is a plain violation (no classification key any more); their
+# witnesses are corpus cases d16 / d15 and the `…_prefix_witness` theorems.
+# Still a finding (not fixed, a design decision): for src = dst a Dijkstra zone returns the declared self route even when a
+# cycle through a neighbour has fewer links, which is what Floyd returns (unequal link counts).  Hidden behind D16 until its fix.
+KEY_SELF = "self-route-longer-than-cycle"
 ALGOS = ("floyd", "dijkstra", "dijkstracache")
+SLOW_BUDGET = 60
 
 
 def reach(n, edges, src):
@@ -110,19 +116,26 @@ def gen_case(seed, idx, klass=None):
     if len(pairs) > 300:
         r.shuffle(pairs)
         pairs = sorted(pairs[:300])      # sorted: consecutive queries share their source (DijkstraCache hits)
-    slow_budget = 4          # Dijkstra queries expected to spin (250 ms each): unreachable or corrupted predecessor
+    # Queries that spun for ever before the fix of D15 (unreachable destination, or a predecessor corrupted by a node
+    # popped with cost ULONG_MAX) take microseconds now.  They keep the flag `s` (CPU budget of 200 ms instead of 5 s in
+    # the harness) and a budget of SLOW_BUDGET per graph, drawn at random, so that a tree where the defect is back
+    # costs at most SLOW_BUDGET * 2 * 0.2 s per graph instead of hours.
+    def is_slow(a, b):
+        # D15: a node x unreachable from a with an edge into a reachable node (other than a) corrupted predecessors
+        corrupt = any(x not in rs[a] and u in rs[a] and u != a for (x, u) in edges)
+        return (b not in rs[a]) or corrupt
+    slow_pairs = [p for p in pairs if is_slow(*p)]
+    risky = len(slow_pairs)
+    unreachable = sum(1 for (a, b) in pairs if b not in rs[a])
+    if len(slow_pairs) > SLOW_BUDGET:
+        r.shuffle(slow_pairs)
+        slow_pairs = slow_pairs[:SLOW_BUDGET]
+    asked_slow = set(slow_pairs)
     for a, b in pairs:
         L.append("Q floyd %d %d" % (a, b))
-        # D15: a node x unreachable from a with an edge into a reachable node (other than a) corrupts predecessors
-        corrupt = any(x not in rs[a] and u in rs[a] and u != a for (x, u) in edges)
-        slow = (b not in rs[a]) or corrupt
-        if b not in rs[a]:
-            unreachable += 1
-        if slow:
-            risky += 1
-            if slow_budget <= 0:
-                continue
-            slow_budget -= 1
+        slow = is_slow(a, b)
+        if slow and (a, b) not in asked_slow:
+            continue
         L.append("Q dijkstra %d %d%s" % (a, b, " s" if slow else ""))
         L.append("Q dijkstracache %d %d%s" % (a, b, " s" if slow else ""))
     for a in range(min(n, 12)):
@@ -151,12 +164,10 @@ def classify(line, verdict):
     """known defects are those the model (= the code as read) reproduces: the implementation's answer equals the model's"""
     q, a = (line.split(" => ", 1) + [""])[:2]
     t = q.split()
-    if len(t) < 2 or not t[1].startswith("dijkstra") or "model=agree" not in verdict:
+    if len(t) < 4 or not t[1].startswith("dijkstra") or "model=agree" not in verdict:
         return None
-    if a.strip() in ("exc", "abort", "timeout"):
-        return KEY_D15
-    if "is not a chain of declared routes" in verdict:
-        return KEY_D16
+    if t[2] == t[3] and "links, minimum is" in verdict:
+        return KEY_SELF
     return None
 
 
@@ -168,7 +179,8 @@ def run(ctx):
     ctx.assumptions += ["Floyd costs are modelled as unbounded naturals with `none` for ULONG_MAX (no wrap below 2^63 links)",
                         "Dijkstra minimality is checked by correspondence (equal link count with the Bellman-Ford spec), not proved",
                         "the route cache of DijkstraCache is exercised by asking all destinations of a source in a row in one process; "
-                        "queries expected to spin for ever (unreachable destination or corrupted predecessor, D15) are sampled (4 per graph)"]
+                        "Dijkstra queries towards unreachable destinations / from sources with unreachable neighbours (they spun for "
+                        "ever before the fix of D15) are sampled: at most %d per graph, 200 ms of CPU each" % SLOW_BUDGET]
     ctx.ensure_simgrid(["simgrid"])
     ctx.lean_prove()
     drv = ctx.lean_exe()
